@@ -196,16 +196,18 @@ def jetexpand_ode_via_jvp(*, num: int) -> JetExpansionAlg[problems.JetOde]:
         if vf.is_jet_lifted:
             raise ValueError
 
-        def vf_wrapped(*jet_coords):
-            [vfx] = vf.vector_field(jet_coords=jet_coords, t=t)
+        def vf_wrapped(*jet_coords_and_t):
+            *jet_coords, t_ = jet_coords_and_t
+            [vfx] = vf.vector_field(jet_coords=jet_coords, t=t_)
             return vfx
 
         g_n, g_0 = vf_wrapped, vf_wrapped
+        t_arr = np.asarray(t, dtype=float)
 
-        taylor_coeffs = [*inits, vf_wrapped(*inits)]
+        taylor_coeffs = [*inits, vf_wrapped(*inits, t_arr)]
         for _ in range(num - 1):
             g_n = _fwd_recursion_iterate(fun_n=g_n, fun_0=g_0)
-            taylor_coeffs = [*taylor_coeffs, g_n(*inits)]
+            taylor_coeffs = [*taylor_coeffs, g_n(*inits, t_arr)]
         return taylor_coeffs, {}
 
     return expand
@@ -214,10 +216,11 @@ def jetexpand_ode_via_jvp(*, num: int) -> JetExpansionAlg[problems.JetOde]:
 def _fwd_recursion_iterate(*, fun_n, fun_0):
     r"""Increment $F_{n+1}(x) = \langle (JF_n)(x), f_0(x) \rangle$."""
 
-    def df(*jet_coords: *tuple[T]) -> list[T]:
-        # Assign primals and tangents for the JVP
-        vals = (*jet_coords, fun_0(*jet_coords))
-        primals_in, tangents_in = vals[:-1], vals[1:]
+    def df(*jet_coords_and_t) -> list[T]:
+        # Assign primals and tangents for the JVP; time is a coordinate with dt/dt = 1
+        *jet_coords, t = jet_coords_and_t
+        vals = (*jet_coords, fun_0(*jet_coords, t))
+        primals_in, tangents_in = (*vals[:-1], t), (*vals[1:], np.ones_like(t))
 
         _, tangents_out = func.jvp(fun_n, primals_in, tangents_in)
         return tangents_out
@@ -317,13 +320,15 @@ def jetexpand_ode_coefficient_double() -> JetExpansionAlg[problems.JetOde]:
         """
         zeros = np.zeros_like(c[0])
 
-        def vf_wrapped(*u):
-            [vfx] = vf.vector_field(jet_coords=u, t=t)
+        def vf_wrapped(u, t_):
+            [vfx] = vf.vector_field(jet_coords=(u,), t=t_)
             return vfx
 
         coeffs_emb = [*c] + [zeros] * degree
         p, *s = coeffs_emb
-        p_new, s_new = func.jet(vf_wrapped, (p,), (s,), is_tcoeff=True)
+        t_arr = np.asarray(t, dtype=float)
+        s_t = [np.ones_like(t_arr)] + [np.zeros_like(t_arr)] * (len(s) - 1)
+        p_new, s_new = func.jet(vf_wrapped, (p, t_arr), (s, s_t), is_tcoeff=True)
         return np.stack([p_new, *s_new])
 
     return double
